@@ -13,6 +13,13 @@ from ..gen import ClassGen
 def _spec(lines):
     return run_driver(lines, exe=SPECDRIVER)
 
+def _wt(w, default):
+    """(what, tags) of an oracle result: the replayable checks return a pair, but the watchdog wrapper of
+    harness/families/__init__.py returns a plain string when the check itself raised or timed out"""
+    if isinstance(w, (tuple, list)) and len(w) == 2:
+        return w[0], w[1]
+    return str(w), default
+
 def _first(fails, f):
     """keep one failure per distinct tag set"""
     key = json.dumps(f.tags, sort_keys=True)
@@ -554,13 +561,13 @@ def oracles_C03(ctx, hints):
         n += 1
         w = check_udp_layout(args)
         if w:
-            _first(fails, Failure("udp_layout", args, w[0], w[1]))
+            _first(fails, Failure("udp_layout", args, *_wt(w, {"class": "Chapter10UDP", "check": "layout"})))
     for cls in ("Chapter11", "Chapter10"):
         for args in ch11_oracle_cases(ctx, cls):
             n += 1
             w = check_ch11_layout(args)
             if w:
-                _first(fails, Failure("ch11_layout", args, w[0], w[1]))
+                _first(fails, Failure("ch11_layout", args, *_wt(w, {"class": cls, "check": "layout"})))
         for args in ch11_repack_cases(ctx, cls):
             n += 1
             w = check_ch11_repack(args)
@@ -1014,7 +1021,8 @@ def oracles_C12(ctx, hints):
         n += len(cuts)
         w = check_file_roundtrip(args)
         if w:
-            _first(fails, Failure("file_roundtrip", args, w[0], {"class": "FileParser", "check": w[1]}))
+            what, chk = _wt(w, "roundtrip")
+            _first(fails, Failure("file_roundtrip", args, what, {"class": "FileParser", "check": chk if isinstance(chk, str) else "roundtrip"}))
     for i in range(ctx.scale(100, 3000)):
         args = {"data": raw_file(rng, rng.randrange(0, 200)).hex()}
         n += 1
